@@ -32,7 +32,7 @@ const (
 	seqC = 6
 )
 
-var opNames = []string{"PushAmid", "PushAfin", "PushBmid", "PushAeoe", "Maintain", "Close", "TickMaintain"}
+var opNames = []string{"PushAmid", "PushAfin", "PushBmid", "PushAeoe", "Maintain", "Close", "TickMaintain", "PushAmidTs", "PushAraw"}
 
 const (
 	oPushAmid = iota
@@ -42,6 +42,8 @@ const (
 	oMaintain
 	oClose
 	oTickMaintain // let the (virtual) timeout of everything buffered elapse, then Maintain
+	oPushAmidTs   // a record of event A whose kernel timestamp is decades away from the other records' (the key is the sequence)
+	oPushAraw     // Push(type, bytes) with a caller buffer that is overwritten as soon as Push has returned
 )
 
 // Program is one driver program: per thread a list of op codes.
@@ -66,6 +68,7 @@ func (p Program) String() string {
 
 type pushed struct {
 	msg       *auparse.AuditMessage
+	tag       string // raw pushes: unique text inside the pushed bytes
 	invoke    int
 	ret       int
 	delivered int
@@ -125,7 +128,16 @@ func (h *harness) ReassemblyComplete(msgs []*auparse.AuditMessage) {
 		}
 		p := h.byPtr[m]
 		if p == nil {
-			h.fail("unknown-message", "delivered a message that was never pushed (seq %d type %d)", m.Sequence, m.RecordType)
+			// pushed as bytes: identified by the unique tag in its text
+			for _, q := range h.msgs {
+				if q.tag != "" && strings.Contains(m.RawData, q.tag) {
+					p = q
+					break
+				}
+			}
+		}
+		if p == nil {
+			h.fail("unknown-message", "delivered a message that was never pushed (seq %d type %d raw %q)", m.Sequence, m.RecordType, m.RawData)
 			continue
 		}
 		if p.eoe {
@@ -169,7 +181,11 @@ func (h *harness) EventsLost(n int) {
 }
 
 func (h *harness) push(seq uint32, typ uint16, nested bool) {
-	m := &auparse.AuditMessage{RecordType: auparse.AuditMessageType(typ), Sequence: seq}
+	h.pushTs(seq, typ, nested, time.Time{})
+}
+
+func (h *harness) pushTs(seq uint32, typ uint16, nested bool, ts time.Time) {
+	m := &auparse.AuditMessage{RecordType: auparse.AuditMessageType(typ), Sequence: seq, Timestamp: ts}
 	if !nested {
 		sched.Yield("call-push")
 	}
@@ -185,8 +201,36 @@ func (h *harness) push(seq uint32, typ uint16, nested bool) {
 	h.mu.Unlock()
 }
 
+// pushRaw hands the Reassembler BYTES, then overwrites them: Push documents that it copies.
+func (h *harness) pushRaw(seq uint32, typ uint16, nested bool) {
+	if !nested {
+		sched.Yield("call-pushraw")
+	}
+	h.mu.Lock()
+	p := &pushed{}
+	p.invoke = h.stamp()
+	p.tag = fmt.Sprintf("tag=<%d>", p.invoke)
+	h.msgs = append(h.msgs, p)
+	h.mu.Unlock()
+	buf := []byte(fmt.Sprintf("audit(1700000000.123:%d): %s a=b", seq, p.tag))
+	err := h.r.Push(auparse.AuditMessageType(typ), buf)
+	for i := range buf {
+		buf[i] = 'Z'
+	}
+	h.mu.Lock()
+	p.ret = h.stamp()
+	if err != nil {
+		h.fail("push-error", "Push returned %v", err)
+	}
+	h.mu.Unlock()
+}
+
 func (h *harness) do(op int, nested bool) {
 	switch op {
+	case oPushAmidTs:
+		h.pushTs(seqA, 1300, nested, time.Unix(1700000077, 0).UTC())
+	case oPushAraw:
+		h.pushRaw(seqA, 1300, nested)
 	case oPushAmid:
 		h.push(seqA, 1300, nested)
 	case oPushAfin:
@@ -300,7 +344,11 @@ func (h *harness) Finish(res *sched.Result) (string, []explore.Finding) {
 			continue
 		}
 		if p.ret < closeInvoked && p.delivered != 1 {
-			h.fail("lost-message", "message seq %d type %d pushed (returned at stamp %d) before Close was invoked (stamp %d) was delivered %d times", p.msg.Sequence, p.msg.RecordType, p.ret, closeInvoked, p.delivered)
+			desc := "pushed as bytes " + p.tag
+			if p.msg != nil {
+				desc = fmt.Sprintf("seq %d type %d", p.msg.Sequence, p.msg.RecordType)
+			}
+			h.fail("lost-message", "message %s pushed (returned at stamp %d) before Close was invoked (stamp %d) was delivered %d times", desc, p.ret, closeInvoked, p.delivered)
 		}
 	}
 	// observation digest
@@ -363,6 +411,34 @@ func programs(tier string) []Program {
 					continue
 				}
 				out = append(out, Program{Threads: [][]int{tpT[i], tpT[j]}, MaxInFlight: 3, Stream: st, Timeout: 2})
+			}
+		}
+	}
+	// payload family: records whose kernel timestamps disagree and records pushed as bytes from a buffer
+	// the caller overwrites afterwards, racing with Maintain / Close / other pushes of the same event
+	var tpP [][]int
+	payOps := []int{oPushAmidTs, oPushAraw, oPushAmid, oMaintain, oClose}
+	for _, a := range payOps {
+		tpP = append(tpP, []int{a})
+		for _, b := range payOps {
+			tpP = append(tpP, []int{a, b})
+		}
+	}
+	hasNew := func(t []int) bool {
+		for _, o := range t {
+			if o == oPushAmidTs || o == oPushAraw {
+				return true
+			}
+		}
+		return false
+	}
+	for _, to := range []int{0, 2} {
+		for i := 0; i < len(tpP); i++ {
+			for j := i; j < len(tpP); j++ {
+				if !hasNew(tpP[i]) && !hasNew(tpP[j]) {
+					continue
+				}
+				out = append(out, Program{Threads: [][]int{tpP[i], tpP[j]}, MaxInFlight: 2, Stream: 0, Timeout: to})
 			}
 		}
 	}
